@@ -64,7 +64,7 @@ def forwarded : List Item → List Bytes
 def lexInfo (chunks : List Bytes) : Nat × Bool × Bool :=
   let total := (chunks.map List.length).sum
   let fuel := total + 2
-  let r := lexRun Win.prims fuel (2 * total + 4) .start
+  let r := lexRun Win.prims fuel (3 * total + 4) .start
     { s := { input := [], start := 0, pos := 0, posShift := 0, width := 0, pending := chunks, lfs := [] },
       toks := [] }
   (chunks.length - r.s.pending.length, (match r.toks with | t :: _ => t.typ == .FAIL | [] => false),
